@@ -465,9 +465,12 @@ Inductive lazy_ret :=
 Definition truthy_dev (d : option (option dev)) : bool := match d with Some (Some _) => true | _ => false end.
 Definition truthy_names (n : option dnames) : bool := match n with Some (Some (_ :: _)) => true | _ => false end.
 
+(* [lazy_bs]: the batch_size= given to the lazy stack together with out= (it is not forwarded to the members; without
+   out= the call goes to the stacked view instead) *)
 Definition lazy_apply (con : bool) (members : list tree) (others : list (list tree)) (out : option (list tree))
-           (names : option dnames) : res lazy_ret :=
-  if o_inplace o && (truthy_dev (o_dev o) || truthy_names names) then Raised EValue
+           (names : option dnames) (lazy_bs : option (list nat)) : res lazy_ret :=
+  if o_inplace o && (truthy_dev (o_dev o) || truthy_names names || match lazy_bs with Some (_ :: _) => true | _ => false end)
+  then Raised EValue
   else
     bind (lazy_members con [] members others out) (fun rs =>
     let rets := map snd rs in
